@@ -58,16 +58,100 @@ MUTATIONS = [
     ("projection: a*u -> u*a", "bi.rs", "self.b() + self.a() * self.u()", "self.b() + self.u() * self.a()",
      "gen_projection_eq"),
     ("mul: syntax outside the subset (.sqrt())", "bi.rs",
-     "let a = self.base_rate * rhs.base_rate;", "let a = (self.base_rate * rhs.base_rate).sqrt();", "TRANSLATOR"),
+     "let a = self.base_rate * rhs.base_rate;", "let a = (self.base_rate * rhs.base_rate).sqrt();",
+     ("exact", 3, {"gen_mul_eq"})),
     ("comul: syntax outside the subset (while loop)", "bi.rs",
      "let b = self.b() + rhs.b() - self.b() * rhs.b();",
-     "let mut b = self.b() + rhs.b() - self.b() * rhs.b(); while b > 1.0 { b = b - 1.0; }", "TRANSLATOR"),
-    ("guard: BSimplex::d reads belief[0]", "bi.rs", "&self.0.belief[1]", "&self.0.belief[0]", "TRANSLATOR"),
+     "let mut b = self.b() + rhs.b() - self.b() * rhs.b(); while b > 1.0 { b = b - 1.0; }",
+     ("exact", 3, {"gen_comul_eq"})),
+    ("RESILIENCE projection untranslatable: its tie and the dependent deduce fail, nothing else", "bi.rs",
+     "self.b() + self.a() * self.u()", "(self.b() + self.a() * self.u()).abs()",
+     ("exact", 3, {"gen_projection_eq", "gen_deduce_eq"})),
+    ("RESILIENCE check_simplex untranslatable: try_new chain fails, the operators still check", "bi.rs",
+     'check_is_one(b + d + u, "b + d + u")?;', 'check_is_one((b + d + u).abs(), "b + d + u")?;',
+     ("exact", 3, {"gen_check_simplex_eq", "gen_BSimplex_try_new_eq", "gen_try_new_eq", "gen_new_eq"})),
+    ("guard: BSimplex::d reads belief[0] (every bi.rs / convert.rs function a hole; approx_ext / errors untouched)",
+     "bi.rs", "&self.0.belief[1]", "&self.0.belief[0]",
+     ("file", 3, {"gen_mul_eq", "gen_projection_eq", "gen_deduce_eq", "gen_check_simplex_eq", "gen_trans_bsr_eq",
+                  "gen_BOpinion_into_Opinion1d_eq"},
+      {"gen_is_in_range_eq", "gen_in_unit_interval_eq", "gen_check_unit_interval_eq", "gen_check_is_one_eq"})),
     ("guard: BOpinion::new_unchecked swaps b and d", "bi.rs",
-     "simplex: BSimplex::new_unchecked(b, d, u),", "simplex: BSimplex::new_unchecked(d, b, u),", "TRANSLATOR"),
+     "simplex: BSimplex::new_unchecked(b, d, u),", "simplex: BSimplex::new_unchecked(d, b, u),",
+     ("file", 3, {"gen_mul_eq", "gen_wfuse_eq"}, {"gen_is_one_eq"})),
+    ("approx_ext: >= -> > in is_in_range", "approx_ext.rs", "(v >= from && v <= to)", "(v > from && v <= to)",
+     ("exact", 0, {"gen_is_in_range_eq", "gen_in_unit_interval_eq", "gen_check_unit_interval_eq"})),
+    ("approx_ext: in_unit_interval tests [0, 0]", "approx_ext.rs", "is_in_range(v, V::zero(), V::one())",
+     "is_in_range(v, V::zero(), V::zero())", ("exact", 0, {"gen_in_unit_interval_eq", "gen_check_unit_interval_eq"})),
+    ("approx_ext: is_zero compares with one", "approx_ext.rs",
+     "pub fn is_zero<V: Float + UlpsEq>(v: V) -> bool {\n    ulps_eq!(v, V::zero())",
+     "pub fn is_zero<V: Float + UlpsEq>(v: V) -> bool {\n    ulps_eq!(v, V::one())", ("exact", 0, {"gen_is_zero_eq"})),
+    ("errors: check_unit_interval negated", "errors.rs", "if approx_ext::in_unit_interval(v) {",
+     "if !approx_ext::in_unit_interval(v) {", ("exact", 0, {"gen_check_unit_interval_eq"})),
+    ("errors: check_is_one uses in_unit_interval", "errors.rs", "if approx_ext::is_one(v) {",
+     "if approx_ext::in_unit_interval(v) {", ("exact", 0, {"gen_check_is_one_eq"})),
+    ("convert: second base-rate entry loses `1.0 -`", "convert.rs", "[value.base_rate, 1.0 - value.base_rate]",
+     "[value.base_rate, value.base_rate]", ("exact", 0, {"gen_BOpinion_into_Opinion1d_eq"})),
+    ("convert: b()[1] -> b()[0] (owned variant)", "convert.rs",
+     "value.b()[0],\n                    value.b()[1],", "value.b()[0],\n                    value.b()[0],",
+     ("exact", 0, {"gen_Opinion1d_into_BOpinion_eq"})),
     # ---- mul.rs
     ("guard: Simplex::u returns something else", "mul.rs",
-     "pub fn u(&self) -> &V {\n        &self.uncertainty", "pub fn u(&self) -> &V {\n        &self.belief_sum", "TRANSLATOR"),
+     "pub fn u(&self) -> &V {\n        &self.uncertainty", "pub fn u(&self) -> &V {\n        &self.belief_sum",
+     ("file", 3, {"gen_inverse_eq", "gen_fuse_eq", "gen_product2_eq", "gen_product2_labeled_eq", "gen_Simplex_vacuous_eq"},
+      set())),
+    ("FATAL mul.rs missing", "mul.rs", "DELETE", None, ("fatal",)),
+    ("multi check_simplex: check u after the sum", "mul.rs",
+     'check_unit_interval(u, "u")?;\n    check_is_one(sum_b + u, "sum(b) + u")?;',
+     'check_is_one(sum_b + u, "sum(b) + u")?;\n    check_unit_interval(u, "u")?;', "gen_multi_check_simplex_eq"),
+    ("multi check_simplex: accumulate before checking the entry (same function: the tie must HOLD)", "mul.rs",
+     'check_unit_interval(bi, format!("b[{i:?}]"))?;\n        sum_b += bi;',
+     'sum_b += bi;\n        check_unit_interval(bi, format!("b[{i:?}]"))?;', None),
+    ("multi check_base_rate: label a[] -> b[]", "mul.rs", 'check_unit_interval(ai, format!("a[{i:?}]"))?;',
+     'check_unit_interval(ai, format!("b[{i:?}]"))?;', "gen_multi_check_base_rate_eq"),
+    ("Opinion::try_new: base rate checked first", "mul.rs",
+     "check_simplex(&b, u)?;\n        check_base_rate(&a)?;", "check_base_rate(&a)?;\n        check_simplex(&b, u)?;",
+     "gen_Opinion_try_new_eq"),
+    ("Fuse<&Simplex,&Simplex>: the panic moves to Avg", "mul.rs",
+     "if matches!(self, FuseOp::ECm) {\n            panic!", "if matches!(self, FuseOp::Avg) {\n            panic!",
+     "gen_fuse_simplex_simplex_eq"),
+    ("Fuse<OpinionRef,&Simplex>: rhs borrows its own clone of the base rate (identity unknown => hole)", "mul.rs",
+     "self.fuse(lhs.clone(), OpinionRef::from((rhs, lhs.base_rate)))",
+     "self.fuse(lhs.clone(), OpinionRef::from((rhs, &lhs.base_rate.clone())))", "gen_fuse_ref_simplex_eq"),
+    ("deduce_with: fallback ignored (unwrap_or_else -> unwrap)", "mul.rs",
+     "mbr::<X, Y, T, Cond, U, V>(&self.base_rate, conds).unwrap_or_else(f);",
+     "mbr::<X, Y, T, Cond, U, V>(&self.base_rate, conds).unwrap();", "gen_OpinionRef_deduce_with_eq"),
+    ("abduce_with: inverse called with ay in place of ax (kind error => hole)", "mul.rs",
+     "InverseCondition::inverse(conds, &ax, ay)", "InverseCondition::inverse(conds, ay, ay)", "gen_abduce_with_eq"),
+    ("Discount for OpinionRef: t squared", "mul.rs", "(self.simplex.discount(t), (*self.base_rate).clone()).into()",
+     "(self.simplex.discount(t * t), (*self.base_rate).clone()).into()", "gen_OpinionRef_discount_eq"),
+    ("product2 (unlabelled): - -> + in b", "mul/non_labeled.rs", "let b = MArr2::from_fn(|d| p[d] - a[d] * u);",
+     "let b = MArr2::from_fn(|d| p[d] + a[d] * u);", "gen_product2_eq"),
+    ("product2 (unlabelled): base rate uses d[0] twice (kind error => hole)", "mul/non_labeled.rs",
+     "MArr2::from_fn(|d| w0.base_rate[d[0]] * w1.base_rate[d[1]])", "MArr2::from_fn(|d| w0.base_rate[d[0]] * w1.base_rate[d[0]])",
+     "gen_product2_eq"),
+    ("product3 (unlabelled): factors commuted in a", "mul/non_labeled.rs",
+     "w0.base_rate[d[0]] * w1.base_rate[d[1]] * w2.base_rate[d[2]]", "w1.base_rate[d[1]] * w0.base_rate[d[0]] * w2.base_rate[d[2]]",
+     "gen_product3_eq"),
+    ("product2 (unlabelled): filter a > 0 -> a >= 0", "mul/non_labeled.rs", ".filter(|&d| a[d] > V::zero())",
+     ".filter(|&d| a[d] >= V::zero())", "gen_product2_eq"),
+    ("product2 (labelled): filter a > 0 -> a >= 0", "mul/labeled.rs", ".filter(|(_, _, &a)| a > V::zero())",
+     ".filter(|(_, _, &a)| a >= V::zero())", "gen_product2_labeled_eq"),
+    ("merge_cond2: x1_y inverted with ay instead of the marginal base rate", "mul.rs",
+     "let x1_y = y_x1.inverse(ax1, mbr(ax1, y_x1).as_ref().unwrap_or(ay));", "let x1_y = y_x1.inverse(ax1, ay);",
+     ("exact", 0, {"gen_merge_cond2_unlabeled_eq", "gen_merge_cond2_labeled_eq"})),
+    ("merge_cond2: fallback product with swapped factors (shape error => holes)", "mul.rs",
+     "unwrap_or_else(|| Product2::product2(ax1, ax2))", "unwrap_or_else(|| Product2::product2(ax2, ax1))",
+     ("exact", 3, {"gen_merge_cond2_unlabeled_eq", "gen_merge_cond2_labeled_eq"})),
+    ("into_opinion: no base-rate check", "mul/non_labeled.rs", "check_base_rate(&a)?;\n        Ok(Opinion1d {",
+     "Ok(Opinion1d {", "gen_Simplex1d_into_opinion_eq"),
+    ("product2 (labelled): (p - b) -> (b - p)", "mul/labeled.rs",
+     ".map(|(p, b, &a)| (p - b) / a)\n            .reduce(V::min)\n            .unwrap();\n        let b = MArrD2",
+     ".map(|(p, b, &a)| (b - p) / a)\n            .reduce(V::min)\n            .unwrap();\n        let b = MArrD2",
+     "gen_product2_labeled_eq"),
+    ("VALIDATE product2 (labelled): Opinion::new instead of normalized: ill-typed output becomes a hole", "mul/labeled.rs",
+     "let b = MArrD2::<D0, D1, V>::from_iter(p_iter.zip(&a).map(|(p, &a)| p - a * u));\n        Opinion::normalized(b, u, a)",
+     "let b = MArrD2::<D0, D1, V>::from_iter(p_iter.zip(&a).map(|(p, &a)| p - a * u));\n        Opinion::new(b, u, a)",
+     ("exact", 3, {"gen_product2_labeled_eq"})),
     ("compute_simlex: harmless commutation in temp", "mul.rs",
      "let temp = lhs_u + rhs_u - lhs_u * rhs_u;", "let temp = lhs_u + rhs_u - rhs_u * lhs_u;",
      "gen_compute_simlex_eq"),
@@ -117,7 +201,9 @@ MUTATIONS = [
      "gen_inverse_eq"),
     ("inverse: syntax outside the subset (.rev())", "mul.rs",
      "let u_yx_sum = T::indexes().map(|x| u_yx[x]).sum::<V>();",
-     "let u_yx_sum = T::indexes().rev().map(|x| u_yx[x]).sum::<V>();", "TRANSLATOR"),
+     "let u_yx_sum = T::indexes().rev().map(|x| u_yx[x]).sum::<V>();",
+     ("exact", 3, {"gen_inverse_eq", "gen_abduce_with_eq", "gen_abduce_eq", "gen_OpinionRef_abduce_with_eq",
+                   "gen_OpinionRef_abduce_eq", "gen_Opinion_abduce_with_eq", "gen_Opinion_abduce_eq"})),
 ]
 
 
@@ -138,14 +224,23 @@ def check(gen_path, tie_path, scratch_lean):
     rc, out = run(["lake", "env", "lean", scratch_lean], cwd=LEAN)
     lines = text.split("\n")
     broken, other = set(), []
+    starts = []                      # (first line of the declaration incl. its doc comment, name), 0-based
+    doc = None
+    for i, l in enumerate(lines):
+        if l.startswith("/--"):
+            doc = i
+        mm = re.match(r"(?:theorem|def)\s+([\w'.]+)", l)
+        if mm:
+            starts.append((doc if doc is not None else i, mm.group(1)))
+            doc = None
+        elif l.strip() == "" and doc is not None and "-/" in "".join(lines[doc:i]):
+            doc = None
     for m in re.finditer(r"^%s:(\d+):\d+: error" % re.escape(scratch_lean), out, flags=re.M):
-        ln = int(m.group(1))
+        ln = int(m.group(1)) - 1
         name = None
-        for i in range(ln - 1, -1, -1):
-            mm = re.match(r"\s*(?:theorem|def)\s+([\w'.]+)", lines[i])
-            if mm:
-                name = mm.group(1)
-                break
+        for st, nm in starts:
+            if st <= ln:
+                name = nm
         if name:
             broken.add(name)
         else:
@@ -157,6 +252,7 @@ def main():
     ap = argparse.ArgumentParser()
     ap.add_argument("--src", default="/repo/src")
     ap.add_argument("--keep", action="store_true")
+    ap.add_argument("--file", dest="src_file", default="", help="only the mutations of this source file (e.g. errors.rs)")
     ap.add_argument("--match", default="", help="only run the mutations whose description contains this text")
     a = ap.parse_args()
     root = tempfile.mkdtemp(prefix="rs2lean_scratch_")
@@ -165,12 +261,17 @@ def main():
         for idx, (name, fname, old, new, expect) in enumerate(MUTATIONS):
             if a.match and a.match not in name:
                 continue
+            if a.src_file and fname != a.src_file:
+                continue
             d = os.path.join(root, "m%02d" % idx)
             src = os.path.join(d, "src")
             out = os.path.join(d, "out")
             shutil.copytree(a.src, src)
             os.makedirs(out)
-            if old is not None:
+            which = "bi" if fname in ("bi.rs", "convert.rs", "approx_ext.rs", "errors.rs") else "mul"
+            if old == "DELETE":
+                os.remove(os.path.join(src, fname))
+            elif old is not None:
                 p = os.path.join(src, fname)
                 t = open(p).read()
                 if t.count(old) < 1:
@@ -179,26 +280,31 @@ def main():
                     continue
                 t = t.replace(old, new, 1)
                 open(p, "w").write(t)
-            which = "bi" if fname == "bi.rs" else "mul"
-            rc, tout = run([sys.executable, os.path.join(HERE, "rs2lean.py"), "--src", src, "--out", out, "--only", which])
-            if rc != 0:
-                msg = [l for l in tout.split("\n") if "unsupported" in l or "rs2lean:" in l][:1]
-                verdict = "ok" if expect == "TRANSLATOR" else "UNEXPECTED"
+            rc, tout = run([sys.executable, os.path.join(HERE, "rs2lean.py"), "--src", src, "--out", out, "--only", which]
+                           + (["--validate", "--lean-root", LEAN] if name.startswith("VALIDATE") else []))
+            holes = [l.split("UNTRANSLATABLE ")[1].split(":")[0] for l in tout.split("\n") if "UNTRANSLATABLE" in l]
+            if rc == 2 or (isinstance(expect, tuple) and expect[0] == "fatal"):
+                verdict = "ok" if isinstance(expect, tuple) and expect[0] == "fatal" and rc == 2 else "UNEXPECTED"
                 ok_all &= verdict == "ok"
-                print("%-10s %-72s translator exit %d: %s" % (verdict, name, rc, msg[0] if msg else tout[-200:]))
+                print("%-10s %-72s translator exit %d: %s" % (verdict, name, rc, tout.strip().split("\n")[0][:150]))
                 continue
             gen = os.path.join(out, "Bi.lean" if which == "bi" else "Mul.lean")
             tie = os.path.join(LEAN, "SLV/Gen", "BiTie.lean" if which == "bi" else "MulTie.lean")
             broken, other, lrc = check(gen, tie, os.path.join(d, "Scratch.lean"))
+            broken = {b_ for b_ in broken if b_.startswith("gen_")}
             if expect is None:
-                verdict = "ok" if not broken and lrc == 0 else "UNEXPECTED"
-            elif expect == "TRANSLATOR":
-                verdict = "UNEXPECTED"
-            else:
+                verdict = "ok" if not broken and lrc == 0 and rc == 0 else "UNEXPECTED"
+            elif isinstance(expect, str):
                 verdict = "ok" if expect in broken else "UNEXPECTED"
+            elif expect[0] == "exact":
+                verdict = "ok" if broken == expect[2] and rc == expect[1] else "UNEXPECTED"
+            elif expect[0] == "file":
+                verdict = "ok" if expect[2] <= broken and not (expect[3] & broken) and rc == expect[1] else "UNEXPECTED"
+            else:
+                verdict = "UNEXPECTED"
             ok_all &= verdict == "ok"
-            print("%-10s %-72s broken: %s%s" % (verdict, name, ", ".join(sorted(broken)) or "-",
-                                              ("  other: %s" % other) if other else ""))
+            print("%-10s %-72s rc=%d holes=%d broken: %s%s" % (verdict, name[:72], rc, len(holes), ", ".join(sorted(broken)) or "-",
+                                                          ("  other: %s" % other) if other else ""))
     finally:
         if not a.keep:
             shutil.rmtree(root, ignore_errors=True)
